@@ -42,8 +42,24 @@ pub struct H {
     d: i64,
 }
 
+thread_local! {
+    /// the conversions this harness thread made most recently (oldest first): a conversion whose
+    /// answer depends on what was converted before it is reported together with that history
+    static RECENT: std::cell::RefCell<std::collections::VecDeque<NaiveDate>> = std::cell::RefCell::new(Default::default());
+}
+fn recent() -> Vec<String> {
+    RECENT.with(|r| r.borrow().iter().map(|d| d.to_string()).collect())
+}
+
 /// observe the library for one date; None = panic
 pub fn observe(date: NaiveDate) -> Result<(H, u8, String), String> {
+    RECENT.with(|r| {
+        let mut r = r.borrow_mut();
+        if r.len() == 4 {
+            r.pop_front();
+        }
+        r.push_back(date);
+    });
     std::panic::catch_unwind(|| {
         let h = HijriDate::from(date);
         let y = if h.pre_epoch() { 1 - h.year() as i64 } else { h.year() as i64 };
@@ -58,7 +74,7 @@ pub fn observe(date: NaiveDate) -> Result<(H, u8, String), String> {
 
 pub fn judge(ctx: &Ctx, l: &mut Local, date: NaiveDate, prev: &mut Option<H>) {
     l.evals += 1;
-    let case = json!({"date": date_json(date)});
+    let case = json!({"date": date_json(date), "preceded_on_this_thread_by": recent()});
     let key = date.to_string();
     let rd = rd_of(date);
     let (y, m, d) = islamic_from_fixed(rd);
@@ -103,7 +119,7 @@ pub fn judge(ctx: &Ctx, l: &mut Local, date: NaiveDate, prev: &mut Option<H>) {
 
 pub fn explore(ctx: &Ctx) {
     crate::c07::install_quiet_hook();
-    ctx.rule("every date 0001-01-01..9999-12-31 is one case (complete input space, both tiers); non-trivial = dates on which a Hijri month starts (the month-length, leap-year and year-boundary decisions), counted from the library's own output after it matched the reference");
+    ctx.rule("every (order, date) is one case: the complete input space 0001-01-01..9999-12-31 ascending (with the successor clause), descending and in strided permutations, plus every ordered pair/triple of the month-boundary alphabet (both tiers); non-trivial = dates on which a Hijri month starts (the month-length, leap-year and year-boundary decisions), counted from the library's own output after it matched the reference");
     ctx.assume("reference: Calendrical Calculations arithmetic Islamic calendar, epoch RD 227015, floor division; Gregorian day number from integer JDN (independent of chrono and of the library)");
     // self-test of the reference
     assert_eq!(islamic_from_fixed(EPOCH), (1, 1, 1));
@@ -130,14 +146,97 @@ pub fn explore(ctx: &Ctx) {
             d = d.succ_opt().unwrap();
         }
     });
+    // ---- the same input space in other ORDERS (a conversion must not depend on what was converted before it)
+    let quick = ctx.tier == Tier::Quick;
+    let first = ymd(1, 1, 1);
+    let n_all: i64 = 3652059;
+    // (a) descending, day by day
+    par_jobs(ctx, &chunks, |(y0, y1), l| {
+        let mut d = ymd(*y1, 12, 31);
+        let end = ymd(*y0, 1, 1);
+        loop {
+            judge(ctx, l, d, &mut None);
+            if d == end {
+                break;
+            }
+            d = d.pred_opt().unwrap();
+        }
+        l.count("descending_conversions", 1);
+    });
+    // (b) strided permutations of the complete space: step k (coprime to the number of dates), each one
+    // walked on a single thread from start to end, so every date is converted after a date k days away
+    let cands: Vec<i64> = if quick { vec![355, 10631, 146097, 1000003] } else { vec![29, 30, 59, 325, 354, 355, 709, 10631, 36525, 146097, 500009, 1000003, 1826029, 3652058 - 354] };
+    let strides: Vec<i64> = cands.into_iter().filter(|k| gcd(*k, n_all) == 1).collect();
+    ctx.alphabet("orders", json!({"ascending": 1, "descending": 1, "strided_permutations_step_days": strides, "each_covers": n_all}));
+    par_jobs(ctx, &strides, |k, l| {
+        let mut i: i64 = 0;
+        for _ in 0..n_all {
+            judge(ctx, l, first + chrono::Duration::days(i), &mut None);
+            i = (i + *k) % n_all;
+        }
+        l.count("strided_sweeps", 1);
+    });
+    // (c) every ordered pair and triple over the month-boundary alphabet
+    let years: Vec<i64> = if quick { vec![-639, 0, 1, 1441, 1442, 9665] } else { vec![-639, -1, 0, 1, 2, 29, 30, 31, 1440, 1441, 1442, 1445, 1446, 9665] };
+    let mut alpha: Vec<NaiveDate> = vec![ymd(1, 1, 1), ymd(9999, 12, 31), ymd(622, 7, 18), ymd(622, 7, 19), ymd(622, 7, 20)];
+    for &y in &years {
+        for m in 1..=12 {
+            for d in [1, month_len(y, m)] {
+                let rd = fixed_from_islamic(y, m, d);
+                if (1..=n_all).contains(&rd) {
+                    alpha.push(first + chrono::Duration::days(rd - 1));
+                }
+            }
+        }
+    }
+    alpha.sort();
+    alpha.dedup();
+    let tri: Vec<NaiveDate> = if quick { alpha.iter().cloned().filter(|d| d.year() > 2000 && d.year() < 2025).collect() } else { alpha.clone() };
+    ctx.alphabet("sequences", json!({"alphabet": "first and last day of every month of the Hijri years listed, plus the ends of the domain and the epoch days", "hijri_years": years, "dates": alpha.len(), "ordered_pairs": alpha.len() * alpha.len(), "ordered_triples_over": tri.len(), "ordered_triples": tri.len() * tri.len() * tri.len()}));
+    par_jobs(ctx, &alpha, |a, l| {
+        for b in &alpha {
+            judge(ctx, l, *a, &mut None);
+            judge(ctx, l, *b, &mut None);
+            l.count("ordered_pairs", 1);
+        }
+    });
+    par_jobs(ctx, &tri, |a, l| {
+        for b in &tri {
+            for c in &tri {
+                judge(ctx, l, *a, &mut None);
+                judge(ctx, l, *b, &mut None);
+                judge(ctx, l, *c, &mut None);
+                l.count("ordered_triples", 1);
+            }
+        }
+    });
     let _ = std::panic::take_hook();
+}
+
+fn gcd(a: i64, b: i64) -> i64 {
+    if b == 0 {
+        a.abs()
+    } else {
+        gcd(b, a % b)
+    }
 }
 
 pub fn replay(ctx: &Ctx, _clause: &str, case: &Value) {
     crate::c07::install_quiet_hook();
     let mut l = Local::default();
     let date = NaiveDate::parse_from_str(case["date"].as_str().unwrap(), "%Y-%m-%d").unwrap();
-    let mut prev = date.pred_opt().filter(|p| p.year() >= 1).and_then(|p| observe(p).ok()).map(|x| x.0);
+    // re-create the history the failing conversion was made in (this process has converted nothing yet)
+    let mut prev = None;
+    let before: Vec<NaiveDate> = case["preceded_on_this_thread_by"].as_array().map(|a| a.iter().filter_map(|x| NaiveDate::parse_from_str(x.as_str()?, "%Y-%m-%d").ok()).collect()).unwrap_or_default();
+    if before.is_empty() {
+        prev = date.pred_opt().filter(|p| p.year() >= 1).and_then(|p| observe(p).ok()).map(|x| x.0);
+    } else {
+        for b in &before {
+            let o = observe(*b);
+            prev = if Some(*b) == date.pred_opt() { o.ok().map(|x| x.0) } else { None };
+        }
+        println!("  preceded by conversions of {:?}", before.iter().map(|d| d.to_string()).collect::<Vec<_>>());
+    }
     judge(ctx, &mut l, date, &mut prev);
     println!("  library: {:?}", observe(date));
 }
